@@ -58,6 +58,12 @@ def big_cases(tier, repo, rng):
     for n in sizes:
         cases.append(("chain%d" % n, [[i + 1] for i in range(1, n)] + [[]], [n]))           # i -> i+1, final last
         cases.append(("backchain%d" % n, [[]] + [[i - 1] for i in range(2, n + 1)], [1]))     # i -> i-1, final first
+    # depths just below the interpreter's recursion limit (whatever the depth of the caller's own stack)
+    import sys as _sys
+    lim = _sys.getrecursionlimit()
+    for n in ([lim - 40, lim - 20, lim - 12, lim - 8, lim - 5, lim - 3, lim - 2, lim - 1, lim, lim + 1]
+              if tier == "quick" else list(range(lim - 60, lim + 3))):
+        cases.append(("chain%d" % n, [[i + 1] for i in range(1, n)] + [[]], [n]))
     # diamonds: a state reached backwards through two different predecessors
     for w in (2, 5, 40):
         tl = [[2 + i for i in range(w)]] + [[w + 2] for _ in range(w)] + [[w + 3], []]
